@@ -12,7 +12,7 @@ from .models import StructModule
 
 
 def _is_sym(x):
-    return isinstance(x, (SymInt, SymBool, SymBytes, SymFloat)) or type(x).__name__ == "SymStr"
+    return isinstance(x, (SymInt, SymBool, SymBytes, SymFloat)) or type(x).__name__ in ("SymStr", "SymBuf")
 
 
 def _any_sym(xs):
@@ -73,7 +73,7 @@ def s_isinstance(x, t):
     if _b.isinstance(x, SymBool):
         ts = t if _b.isinstance(t, tuple) else (t,)
         return any(c in (_b.bool, _b.int, s_int, object) for c in ts)
-    if _b.isinstance(x, SymBytes):
+    if _b.isinstance(x, SymBytes) or type(x).__name__ == "SymBuf":
         ts = t if _b.isinstance(t, tuple) else (t,)
         return any(c in (_b.bytes, _b.bytearray, object, s_bytes, s_bytearray) for c in ts)
     if type(x).__name__ == "SymStr":
@@ -110,13 +110,15 @@ def s_min(*args, **kw):
 
 class _BytesMeta(type):
     def __instancecheck__(cls, x):
-        return _b.isinstance(x, (cls._real, SymBytes))
+        return _b.isinstance(x, (cls._real, SymBytes)) or type(x).__name__ == "SymBuf"
 
 
 class s_bytes(metaclass=_BytesMeta):
     _real = _b.bytes
 
     def __new__(cls, *a):
+        if a and type(a[0]).__name__ == "SymBuf":
+            return a[0]
         if a and _b.isinstance(a[0], SymBytes):
             return SymBytes(a[0].items)
         if a and _b.isinstance(a[0], (list, tuple)) and _any_sym(a[0]):
@@ -133,6 +135,8 @@ class s_bytearray(metaclass=_BytesMeta):
     _real = _b.bytearray
 
     def __new__(cls, *a):
+        if a and type(a[0]).__name__ == "SymBuf":
+            return a[0]
         if a and _b.isinstance(a[0], SymBytes):
             return SymBytes(a[0].items, mutable=True)
         if a and _b.isinstance(a[0], (list, tuple)) and _any_sym(a[0]):
@@ -220,11 +224,8 @@ def s_range(*a):
             if ctx().decide(n.t <= 0):
                 return []
             n = SymInt(n.t, 1, n.hi)
-        if n.hi - n.lo + 1 > 300:
-            n.tighten()
-        if n.hi - n.lo + 1 > 300:
-            return _lazy_range(start, n)
-        n = n.concretize(limit=4096)
+        from .loops import SymRange
+        return SymRange(start, n)       # iterated natively: concretised / lazily forked; under a loop contract: abstract sequence
     return [start + i for i in _b.range(_b.max(n, 0))]
 
 
@@ -256,8 +257,8 @@ def set_loop_specs(specs):
     _loop_specs = specs or {}
 
 
-def loop_enter(lid, L):
-    _loop_specs[lid].enter(L)
+def loop_enter(lid, L, loaded=()):
+    _loop_specs[lid].enter(L, loaded)
 
 
 def loop_havoc(lid, name, L):
